@@ -50,4 +50,21 @@ CHECKS = {
         assumptions=["documented ranges = EncoderOptions field comments; Segments/Pass 0 count as 'use default' as validateConfig documents"],
         tests=[dict(name="TestC20", quick=6400, thorough=200000)],
     ),
+    "C04": dict(
+        level="exploration",
+        rule="three stream sources: (gen) VP8 key frames written by /verif's boolean encoder: rapid-chosen header syntax (segment map/data abs/delta, per-segment quantiser/filter, simple/normal filter, level, sharpness, ref/mode deltas, 1-8 partitions, base q and 5 deltas, coefficient-probability updates, skip probability, profile 0-3) followed by random mode bits and random token partitions (optionally sparse); "
+             "(gen+alph) the same plus a raw ALPH plane with filter 0-3; (libwebp) pictures encoded by libwebp 1.2.4 at random quality (its ALPH methods/filters). "
+             "Oracle: Y/U/V planes (or RGBA with alpha) bit-exact vs libwebp AND x/image (both must accept and agree, else the case is inconclusive); RGBA confirmed by a reference fancy upsampler. "
+             "Non-trivial: truth established by two agreeing witnesses; distinct = header-feature signature.",
+        assumptions=["libwebp 1.2.4 and golang.org/x/image/vp8 agreeing with each other define the format's samples", "streams all witnesses reject or disagree on are excluded and counted (inconclusive)"],
+        tests=[dict(name="TestC04", quick=6400, thorough=160000)],
+    ),
+    "C06": dict(
+        level="exploration",
+        rule="rapid draws pictures (incl. non-multiples of 16, >=4 macroblock rows) x the lossy option product (targets, passes, presets, segments, partitions, sharp YUV, dithering) x GOMAXPROCS {1,2,3,4,8} (serial and row-parallel encoder); the verif-tagged FrameEncoded hook copies the encoder's reconstruction after every pass (last one kept). "
+             "Oracle: vendored x/image/vp8 with the loop filter skipped == reconstruction; package decoder with NoLoopFilter hook == reconstruction; when the stream's filter level is 0 the plain public Decode == reconstruction; decoded size == source size. "
+             "Non-trivial: >=2 colours; distinct = (serial/parallel path, Method, segments, filter off, pass count, sharp, target mode, preprocessing).",
+        assumptions=["the hook observes the planes the encoder used as prediction reference (encoder writes its reconstruction into its Y/U/V planes)", "vendored x/image/vp8 + SkipLoopFilter switch as independent pre-deblocking decoder"],
+        tests=[dict(name="TestC06", quick=3200, thorough=60000)],
+    ),
 }
